@@ -348,17 +348,36 @@ static rc::Gen<DCase> genD() {
         c.plan_max_us = *rc::gen::element(0, 300, 2000);
         c.plan = (unsigned)*irange(1, 1 << 30);
         c.seed = (uint64_t)*irange(1, 1 << 30);
-        for (int i = 0; i < c.n; i++) c.eligible.push_back(*irange(0, 3) != 0);
+        // 0 = not ready, 1 = ready, 2 = ready, but its first attempt fails cleanly (cutting plane through one of its nodes) and is retried
+        for (int i = 0; i < c.n; i++) c.eligible.push_back(*rc::gen::element(0, 1, 1, 1, 2));
         return c;
     });
 }
+// epithelial cell whose first division attempt can be made to fail cleanly: the cutting plane is put through one of its own nodes
+// (get_cell_division_axis is virtual); once `forced_` is cleared it divides along its longest axis like any other cell
+class axis_cell : public epithelial_cell {
+  public:
+    vec3 axis_;
+    bool forced_ = false;
+    axis_cell(const std::vector<double>& xyz, const std::vector<unsigned>& tri, unsigned id, cell_type_param_ptr t) : epithelial_cell(xyz, tri, id, t) {}
+    vec3 get_cell_division_axis() const noexcept override { return forced_ ? axis_ : get_cell_longest_axis(); }
+};
 static std::vector<cell_ptr> make_population(const DCase& k, cell_type_param_ptr type, ct::CellScope& scope) {
     std::vector<cell_ptr> cells;
     for (int i = 0; i < k.n; i++) {
         // generic (not axis-symmetric) shapes so that the default longest axis gives clean cuts
         TriMesh m = tg::ball(1, 1.0, V3(5.0 * i, 0.37 * i, -0.21 * i), 1.0 + 0.23 + 0.03 * (i % 4), 0.91, 0.78 + 0.02 * (i % 3));
         for (size_t q = 0; q < m.nn(); q++) m.xyz[3 * q] += 0.013 * m.xyz[3 * q + 1] + 0.007 * m.xyz[3 * q + 2];
-        cell_ptr c = ct::make_cell<epithelial_cell>(m, (unsigned)i, type);
+        auto ac = std::make_shared<axis_cell>(m.xyz, m.tri, (unsigned)i, type);
+        ac->initialize_cell_properties();
+        if (k.eligible[i] == 2) {
+            auto& nl = cell_tester::nodes(*ac);
+            V3 r = ct::to_v3(nl[(k.plan + 7 * i) % nl.size()].pos()) - ct::to_v3(ac->compute_centroid());
+            V3 n = r.cross(V3(0.3, -0.7, 0.2));
+            n = n * (1 / n.norm());
+            ac->axis_ = ct::to_vec3(n), ac->forced_ = true;
+        }
+        cell_ptr c = ac;
         c->set_local_id((unsigned)i);
         cell_tester::division_volume(*c) = k.eligible[i] ? c->get_volume() * 0.5 : c->get_volume() * 10;
         scope.add(c);
@@ -447,6 +466,42 @@ static std::string runD(const DCase& k, vf::Ctx& ctx) {
     if (divided != ref_divided) {
         os << divided << " cells divided in parallel, " << ref_divided << " when divided one after another";
         ctx.count("division_count_differs_from_sequential");
+    }
+    // retry, as the solver does five iterations later: the mothers whose first attempt failed are still ready and now divide along their
+    // longest axis, in the same call, among the daughters of the first call; ids must stay distinct and nobody may get lost
+    int failed_first = 0, failed_before_a_success = 0, last_success = -1;
+    for (int i = 0; i < k.n; i++)
+        if (k.eligible[i] && std::find(par.begin(), par.end(), orig[i]) == par.end()) last_success = i;
+    for (int i = 0; i < k.n; i++) {
+        if (!k.eligible[i] || std::find(par.begin(), par.end(), orig[i]) == par.end()) continue;
+        failed_first++;
+        if (i < last_success) failed_before_a_success++;
+        if (auto ac = std::dynamic_pointer_cast<axis_cell>(orig[i])) ac->forced_ = false;
+    }
+    if (failed_first) {
+        ctx.count("calls_with_a_failed_division");
+        if (failed_before_a_success) ctx.count("calls_with_a_failed_division_listed_before_a_successful_one");
+        const size_t n_before = par.size();
+        simucell3d_verif::seed_source() = next_seed;
+        g_seed_state = k.seed + 977;
+        omp_set_num_threads(k.threads);
+        cell_divider::run(par, 0.3, lmr, max_id, false);
+        omp_set_num_threads(1);
+        simucell3d_verif::seed_source() = nullptr;
+        scope.add(par);
+        std::set<unsigned> ids2;
+        for (auto& c : par) {
+            if (!c) return "null cell in the population after the retry";
+            if (!ids2.insert(c->get_id()).second) {
+                os << "two cells share the id " << c->get_id() << " after the division that failed in the first call was retried";
+                return os.str();
+            }
+        }
+        int retried_ok = 0;
+        for (int i = 0; i < k.n; i++)
+            if (k.eligible[i] == 2 && std::find(par.begin(), par.end(), orig[i]) == par.end()) retried_ok++;
+        if (par.size() != n_before + (size_t)retried_ok) return "population size after the retry does not match the number of divisions";
+        ctx.count("retried_divisions_that_succeeded", retried_ok);
     }
     ctx.count("divisions", divided);
     ctx.count("list_reads_observed", g_reads.load());
